@@ -517,6 +517,7 @@ class HistoryRunner:
         self.inside_agents = set()
         self.objs0 = {}
         self.run_jobs = {}  # p -> [(rel, dep_rel)] submitted (with barrier) in the current run of p
+        self.racy_last = set()
         self.abort = None
 
     # -- helpers
@@ -689,6 +690,9 @@ class HistoryRunner:
                 self.record(idx, "enter-error", got=ev)
                 self.abort = "agent enter failed"
         elif kind == "submit":
+            if not op.get("sync", True):  # racy: the process ends right after it, so the earlier starts finish first
+                self.settle_agent(p)
+                self.racy_last.add(p)
             ag.send(cmd="submit", job=op["job"], kind=op["kind"], x=op["x"], dep=op.get("dep"), sync=op.get("sync", True),
                     settle=bool(op.get("settle")))
             ev = ag.expect({"submitted", "submit-error"}, 60)
@@ -704,7 +708,8 @@ class HistoryRunner:
             ag.expect({"released"}, 30)
             self.record(idx, "released", obs=False)
         elif kind == "exit":
-            self.settle_agent(p)
+            if p not in self.racy_last:
+                self.settle_agent(p)
             ag.send(cmd="exit", how=op["how"], kill_exit=op.get("kill_exit"))
             ev = ag.expect({"exited"}, 60)
             self.inside_agents.discard(p)
@@ -729,7 +734,8 @@ class HistoryRunner:
         elif kind == "kill":
             if ag.dead:  # it died inside __enter__ already
                 return
-            self.settle_agent(p)
+            if p not in self.racy_last:
+                self.settle_agent(p)
             ag.kill(signal.SIGTERM if op.get("sig") == "TERM" else signal.SIGKILL)
             self.inside_agents.discard(p)
             if self.pending:
@@ -1242,7 +1248,7 @@ def correspond(ctx):
         "fcntl/fasteners: mutual exclusion between processes and release on process death (exercised, not proved)",
         "local filesystem semantics of rename/unlink/symlink (atomic per call)",
     ]
-    n = ctx.scale(120, 2000)
+    n = ctx.scale(100, 2000)
     hists = [dict(h) for h in CORPUS] + [gen_history(ctx.rng, f"{ctx.seed}-{i}") for i in range(n)]
     run_histories(ctx, hists)
 
